@@ -114,6 +114,13 @@ RICH_FLOWIR = {
                               "stages": {1: {"extra": "s1"}}},
                   "fast": {"global": {"greeting": "hi", "n": 2}, "stages": {0: {"alpha": "a0"}}}},
     "platforms": ["default", "fast"],
+    # dict-valued options that ONLY the stage blueprints define; ba and solo refine them differently, gen/agg/a inherit them
+    "blueprint": {"default": {"global": {"resourceManager": {"lsf": {"queue": "blueprint-queue"}}},
+                              "stages": {0: {"resourceManager": {"kubernetes": {"podSpec": {"nodeSelector": {"pool": "default-stage0"},
+                                                                                             "schedulerName": "stage0"}}}},
+                                         1: {"resourceManager": {"kubernetes": {"podSpec": {"nodeSelector": {"pool": "default-stage1"}}}}}}},
+                  "fast": {"stages": {0: {"resourceManager": {"kubernetes": {"podSpec": {"nodeSelector": {"pool": "fast-stage0"},
+                                                                                          "priorityClassName": "fast"}}}}}}},
     "environments": {"default": {"envA": {"DEFAULTS": "PATH:LD_LIBRARY_PATH", "A": "1", "B": "%(greeting)s", "Z": "26",
                                           "R_BIN": "$R_HOME/bin", "R_HOME": "$R_ROOT/home", "R_ROOT": "/r/$A", "PATH": "$R_BIN:$PATH"},
                                  "envB": {"X": "y", "W": "%(alpha)s"},
@@ -125,9 +132,11 @@ RICH_FLOWIR = {
          "references": ["input/in.txt:ref", "data/d.txt:ref"], "workflowAttributes": {"replicate": "%(n)s"},
          "variables": {"local": "l", "alpha": "component-alpha"}},
         {"name": "ba", "stage": 0, "command": {"executable": "cat", "arguments": "gen/out.txt:ref %(alpha)s %(tag)s", "environment": "envB"},
-         "references": ["gen/out.txt:ref"], "variables": {"tag": "%(alpha)s-%(zeta)s-tag", "mine": "m"}},
+         "references": ["gen/out.txt:ref"], "variables": {"tag": "%(alpha)s-%(zeta)s-tag", "mine": "m"},
+         "resourceManager": {"kubernetes": {"podSpec": {"nodeSelector": {"pool": "ba", "zone": "ba-zone"}}}}},
         {"name": "solo", "stage": 0, "command": {"executable": "echo", "arguments": "%(label)s %(local)s"},
-         "variables": {"label": "%(greeting)s-%(alpha)s", "local": "solo-local", "zeta": "solo-zeta"}},
+         "variables": {"label": "%(greeting)s-%(alpha)s", "local": "solo-local", "zeta": "solo-zeta"},
+         "resourceManager": {"kubernetes": {"podSpec": {"tolerations": [{"key": "solo"}], "nodeSelector": {"disk": "ssd", "pool": "solo"}}}}},
         {"name": "a", "stage": 1, "command": {"executable": "cat", "arguments": "stage0.ba/res.txt:output %(extra)s", "environment": "none"},
          "references": ["stage0.ba/res.txt:output", "data/e.txt:copy"]},
         {"name": "agg", "stage": 1, "command": {"executable": "cat", "arguments": "a:ref stage0.gen:ref"},
@@ -175,14 +184,17 @@ ENV_PACKAGE = {
         "default": {
             "chain": {"APP_BIN": "$APP_HOME/bin", "APP_HOME": "${APP_ROOT}/app", "APP_ROOT": "%(root)s", "TOOL": "$VERIF_LAUNCH/%(tool)s:$APP_BIN"},
             "layered": {"DEFAULTS": "PATH:VERIF_LAUNCH", "LA": "$LB/a", "LB": "$LC/b", "LC": "/c", "PATH": "$LA:$PATH", "LAUNCHED": "$VERIF_LAUNCH/l"},
-            "environment": {"GA": "$GB/ga", "GB": "$GC/gb", "GC": "/gc"}},
+            "environment": {"GA": "$GB/ga", "GB": "$GC/gb", "GC": "/gc"},
+            # the same name twice, in different case, with different contents (names are case-insensitive)
+            "solver": {"SOLVER": "lower", "ONLY_LOWER": "1"}, "Solver": {"SOLVER": "mixed", "ONLY_MIXED": "1"}},
         "hpc": {"layered": {"LB": "$LD/hpcb", "LD": "/d"}, "chain": {"APP_ROOT": "/hpc/root", "EXTRA": "$APP_BIN/x"}}},
     "components": [
         {"name": "c0", "stage": 0, "command": {"executable": "echo", "arguments": "x", "environment": "chain"}},
         {"name": "c1", "stage": 0, "command": {"executable": "echo", "arguments": "x", "environment": "layered"}},
         {"name": "c2", "stage": 1, "command": {"executable": "echo", "arguments": "x"}},
-        {"name": "c3", "stage": 1, "command": {"executable": "echo", "arguments": "x", "environment": "none"}}]}
-ENV_NAMES = ["chain", "layered", "environment", "none", None]
+        {"name": "c3", "stage": 1, "command": {"executable": "echo", "arguments": "x", "environment": "none"}},
+        {"name": "c4", "stage": 1, "command": {"executable": "echo", "arguments": "x", "environment": "solver"}}]}
+ENV_NAMES = ["chain", "layered", "environment", "solver", "none", None]
 ENV_UNSET = ["APP_BIN", "APP_HOME", "APP_ROOT", "TOOL", "EXTRA", "LA", "LB", "LC", "LD", "LAUNCHED", "GA", "GB", "GC"]
 ALL_PERMS_UPTO = 4        # mappings with at most this many keys are presented in ALL their key orders
 SAMPLED_PERMS = 8         # larger mappings: identity, reverse and seeded samples
@@ -258,7 +270,7 @@ def with_key_order(doc, path, order, rng):
 
 def env_cases(vdir):
     return [{"id": eid, "kind": "envfamily", "package": os.path.join(vdir, "envfam", "p%d.package" % n), "platforms": [None, "hpc"],
-             "names": ENV_NAMES, "nodes": ["stage0.c0", "stage0.c1", "stage1.c2", "stage1.c3"]}
+             "names": ENV_NAMES, "nodes": ["stage0.c0", "stage0.c1", "stage1.c2", "stage1.c3", "stage1.c4"]}
             for n, (eid, path, order) in enumerate(env_family())] + \
            [{"id": eid, "kind": "envfamily", "dsl": True, "package": os.path.join(vdir, "dslfam", "p%d.package" % n)}
             for n, (eid, path, order) in enumerate(dsl_family())]
@@ -523,6 +535,35 @@ def judge_rich(chk, seeds, result, ids):
             raise MachineryError("rich package %s lost its substance: %s" % (rid, {n: c["memoization"] for n, c in ref["components"].items()}))
         chk.evaluated(("rich", rid))
         chk.trace_validated()
+        if rid.startswith("rich:flowir"):
+            # scoping oracle for the option only the stage blueprints define: component > stage blueprint of the active platform >
+            # stage blueprint of the default platform; nothing a sibling sets may show up
+            fast = ":fast" in rid
+            want = {"stage0.gen": "fast-stage0" if fast else "default-stage0", "stage0.ba": "ba", "stage0.solo": "solo",
+                    "stage1.a": "default-stage1", "stage1.agg": "default-stage1"}
+            for s in seeds:
+                prim = dumps[s].get("primitive", {})
+                got = {}
+                for n in want:
+                    try:
+                        got[n] = prim[n]["resourceManager"]["kubernetes"]["podSpec"]["nodeSelector"]["pool"]
+                    except Exception:
+                        got[n] = "<missing>"
+                repl = {}
+                for n, c in dumps[s]["components"].items():
+                    base = n.rstrip("0123456789") if n.rstrip("0123456789") in want else n
+                    if base in want:
+                        try:
+                            repl[n] = (base, c["configuration"]["resourceManager"]["kubernetes"]["podSpec"]["nodeSelector"]["pool"])
+                        except Exception:
+                            repl[n] = (base, "<missing>")
+                bad = {n: v for n, v in got.items() if v != want[n]}
+                bad.update({n: v for n, (b, v) in repl.items() if v != want[b]})
+                if bad:
+                    chk.violation("blueprint-scoping:%s" % rid,
+                                  "PYTHONHASHSEED=%s: podSpec.nodeSelector.pool (defined by the stage blueprints, refined by ba and solo) is %s, specified %s" % (
+                                      s, bad, want), {"rich": rid, "seeds": seeds})
+                    break
         texts = {s: json.dumps(dumps[s], sort_keys=True) for s in seeds}
         for s in seeds[1:]:
             if texts[s] != texts[seeds[0]]:
